@@ -638,3 +638,7 @@ PROPS["C17"]["proofs"] = PROPS["C17"]["proofs"] + ["Bmc.Proofs.EndToEnd.ReuseC17
 PROPS["C17"]["claim"] += (" generated_session_SendCommand_ignores_history / generated_sessionless_SendCommand_ignores_history (Proofs/EndToEnd/ReuseC17.lean): SendCommand AS TRANSLATED ON THIS RUN gives "
                           "the same result, the same datagrams and the same counter from two connection values differing ARBITRARILY in what earlier traffic left behind (layer structs of the last decode, "
                           "which layers it went through, serialisation buffer bytes, Prometheus log).")
+PROPS["C19"]["proofs"] = PROPS["C19"]["proofs"] + ["Bmc.Proofs.EndToEnd.IsolationC19"]
+PROPS["C19"]["claim"] += (" generated_SendCommand_isolation (Proofs/EndToEnd/IsolationC19.lean): the isolation theorem instantiated with both SendCommand entry points AS TRANSLATED ON THIS RUN — the translation "
+                          "succeeds only if every variable they touch is a parameter, a local or a field of the receiver (a written package-level variable is a give-up), so they ARE functions of the connection's own "
+                          "state and every interleaving gives each connection its solo results.")
